@@ -255,6 +255,12 @@ def check(ctx):
                               {'begin': T.pretty(b)[:500], 'end': T.pretty(en)[:500]})
         ctx.guard('R4', fsite(f), r4)
     ctx.count('hep_distribution_accumulator instantiations', nda, 3)
+    from .C02 import counters_converted_before_combined
+    fs = []
+    for nm in ('hep::weighted_with_variance::operator()', 'hep::weighted_equally::operator()', 'hep::chi_square_dof',
+               'hep::create_result', 'hep::mc_result::value', 'hep::mc_result::variance'):
+        fs += instances(p, nm)[:1]
+    counters_converted_before_combined(ctx, 'R1.no_integer_products', fs)
 
 
 def _canon_sum(t):
